@@ -60,10 +60,12 @@ async def observe_jobdirs(loop, res):
                 problems.append(("shared", f"jobs {a} and {b} share directories {sorted(shared)}"))
     for name, job in jobs.items():
         if name.startswith("/fx/"):
-            want = (fixed + "in", fixed + "out", fixed + "tmp")
-            got = (job.input_directory, job.output_directory, job.tmp_directory)
-            if tuple(os.path.realpath(w) for w in want) != tuple(os.path.realpath(g) for g in got):
-                problems.append(("fixed", f"job {name}: binding fixes {want} but job got {got}"))
+            fix = res.get("spec", {}).get("fix", "in+out+tmp").split("+")
+            for k, got in (("in", job.input_directory), ("out", job.output_directory), ("tmp", job.tmp_directory)):
+                if k in fix and os.path.realpath(fixed + k) != os.path.realpath(got):
+                    problems.append(("fixed", f"job {name}: binding fixes {fixed + k} but job got {got}"))
+                if k not in fix and got.startswith(fixed):
+                    problems.append(("fixed", f"job {name}: {k} directory is not fixed by the binding but job got {got}"))
     res["dir_problems"] = problems
     res["dir_jobs"] = len(jobs)
 
@@ -89,11 +91,13 @@ def run_case(params, prefix):
 
 def cases_for(tier):
     specs = [{"prog": "scatterjobs", "n": 1}, {"prog": "scatterjobs", "n": 3}, {"prog": "jobs", "k": 2},
-             {"prog": "twojobs"}, {"prog": "fixeddirs", "n": 2},
+             {"prog": "twojobs"}, {"prog": "fixeddirs", "n": 2}, {"prog": "fixeddirs", "n": 2, "fix": "in"},
+             {"prog": "fixeddirs", "n": 2, "fix": "out"},
              {"prog": "multiloc", "n": 2, "locs": 2, "nlocs": 3}, {"prog": "multiloc", "n": 1, "locs": 3, "nlocs": 3}]
     if tier == "thorough":
         specs += [{"prog": "scatterjobs", "n": 6}, {"prog": "seq_job_scatterjobs", "n": 2},
-                  {"prog": "loopjob", "pred": "lt3"}, {"prog": "fixeddirs", "n": 3},
+                  {"prog": "loopjob", "pred": "lt3"}, {"prog": "fixeddirs", "n": 3}, {"prog": "fixeddirs", "n": 3, "fix": "in"}, {"prog": "fixeddirs", "n": 3, "fix": "in+out"},
+                  {"prog": "fixeddirs", "n": 2, "fix": "tmp"}, {"prog": "fixeddirs", "n": 2, "fix": "in+tmp"}, {"prog": "fixeddirs", "n": 2, "fix": "out+tmp"},
                   {"prog": "multiloc", "n": 3, "locs": 2, "nlocs": 4}]
     cases = [{"spec": s} for s in specs]
     for c in cases:
